@@ -161,6 +161,21 @@ pub fn dedup(v: Vec<Value>) -> Vec<Value> {
     out
 }
 
+/// documents whose neighbouring members differ only in the spelling or the last digit of a number (as scalars and
+/// inside containers), member names that look like numbers / keywords, and member names that collide with
+/// serde_json's private tokens
+pub fn neighbour_docs() -> Vec<Value> {
+    vec![
+        json!([1, 1.0]), json!([1.0, 1]), json!([[1], [1.0]]), json!([[1.0], [1], [1.0]]), json!([{"id": 1}, {"id": 1.0}]), json!([{"id": 9007199254740992u64}, {"id": 9007199254740993u64}]),
+        json!([[18446744073709551615u64], [18446744073709551614u64]]), json!([[1700000000000000001u64], [1700000000000000002u64]]), json!([0.3, 0.30000000000000004]), json!([[0.3], [0.30000000000000004]]), json!({"a": [1], "b": [1.0]}),
+        json!([["a", 1], ["a", 1.0]]), json!([{"k": [1, 2]}, {"k": [1.0, 2]}, {"k": [1, 2.0]}]), json!([0, -0.0]), json!([[0], [-0.0]]), json!({"rows": [{"id": 1, "w": 2.0}, {"id": 1.0, "w": 2}]}),
+        json!({"1": 1, "0": 0, "-7": 7, "007": 7, "2024": {"12": [31]}, "1.5": 1.5, "1e3": 1, "": 0, "true": true, "null": null, "false": false}),
+        json!([{"1": "a"}, {"01": "b"}]), json!({"9223372036854775807": 1, "9223372036854775808": 2, "18446744073709551616": 3}),
+        json!({"$serde_json::private::Number": "12"}), json!({"price": {"$serde_json::private::Number": "12"}, "qty": {"$serde_json::private::Number": "1e2"}}), json!([{"$serde_json::private::Number": "x"}, {"$serde_json::private::Number": 12}]),
+        json!({"$serde_json::private::RawValue": "[1, 2]"}), json!({"$serde_json::private::Number": "12", "other": 1}),
+    ]
+}
+
 pub fn pool_quick() -> Vec<Value> {
     dedup(docs_core())
 }
